@@ -400,7 +400,9 @@ func init() { registerCases("C16", c16Case) }
 
 func c16Case(run *evid.Run, i int, j *Journal) {
 	rng := rand.New(rand.NewSource(run.Seed*4256233 + int64(i)))
-	h := hx.Gen(run.Seed, i, hx.GenOpts{MaxSteps: pick(run.Tier, 28, 50), Orders: []string{"hash", "default"}, MaxReplicas: 4})
+	h := hx.Gen(run.Seed, i, hx.GenOpts{MaxSteps: pick(run.Tier, 28, 50), Orders: []string{"hash", "default"}, MaxReplicas: 4,
+		Codecs: []string{[]string{"cbor", "cbor", "pb"}[i%3]}}) // the legacy codec names blocks by CIDv0 identifiers
+	run.Count("pairs_codec_"+h.Codec, 1)
 	// choose pair
 	a := rng.Intn(h.Replicas)
 	b := rng.Intn(h.Replicas - 1)
@@ -436,6 +438,11 @@ func c16Case(run *evid.Run, i int, j *Journal) {
 		x := hx.NewExec(h)
 		for k := range h.Steps {
 			x.Do(k)
+		}
+		if i%5 == 2 && !useEmpty {
+			// the source's newest entries carry an empty and a nil payload (legal payloads)
+			_, _ = x.Logs[b].Append(x.W.Ctx, []byte{}, nil)
+			_, _ = x.Logs[b].Append(x.W.Ctx, nil, nil)
 		}
 		if partialSrc {
 			if keepB < 0 {
